@@ -249,3 +249,172 @@ Proof.
         try reflexivity; try lia.
       unfold nthZ. replace (Z.to_nat (g - s)) with (S (Z.to_nat (g - (s + 1)))) by lia. reflexivity.
 Qed.
+
+(* ------------------------------------------------------------------ position search *)
+Section Search.
+Variable mt : match_type.
+Variable gd : option gdef.
+Notation P := (match_glyph mt gd).
+Notation U := (unskipped mt gd).
+
+Lemma find_first_from_some l k p : find_first_from mt gd l k = Some p ->
+  exists a x b, l = a ++ x :: b /\ p = k + len a /\ U a = [] /\ P x = true.
+Proof.
+  revert k; induction l as [|g l IH]; intros k H; cbn [find_first_from] in H; [discriminate|].
+  destruct (P g) eqn:E.
+  - inversion H; subst p. exists [], g, l. rewrite len_nil. repeat split; [lia|assumption].
+  - apply IH in H. destruct H as (a & x & b & -> & -> & Ha & Hx).
+    exists (g :: a), x, b. rewrite len_cons. repeat split; [lia| |assumption].
+    unfold unskipped in *. cbn [filter]. rewrite E. exact Ha.
+Qed.
+
+Lemma find_first_from_none l k : find_first_from mt gd l k = None -> U l = [].
+Proof.
+  revert k; induction l as [|g l IH]; intros k H; cbn [find_first_from] in H; [reflexivity|].
+  unfold unskipped in *. cbn [filter]. destruct (P g); [discriminate|]. exact (IH _ H).
+Qed.
+
+Lemma find_first_down_some l k p : find_first_down mt gd l k = Some p ->
+  exists a x b, l = a ++ x :: b /\ p = k - len a /\ U a = [] /\ P x = true.
+Proof.
+  revert k; induction l as [|g l IH]; intros k H; cbn [find_first_down] in H; [discriminate|].
+  destruct (P g) eqn:E.
+  - inversion H; subst p. exists [], g, l. rewrite len_nil. repeat split; [lia|assumption].
+  - apply IH in H. destruct H as (a & x & b & -> & -> & Ha & Hx).
+    exists (g :: a), x, b. rewrite len_cons. repeat split; [lia| |assumption].
+    unfold unskipped in *. cbn [filter]. rewrite E. exact Ha.
+Qed.
+
+Lemma find_first_down_none l k : find_first_down mt gd l k = None -> U l = [].
+Proof.
+  revert k; induction l as [|g l IH]; intros k H; cbn [find_first_down] in H; [reflexivity|].
+  unfold unskipped in *. cbn [filter]. destruct (P g); [discriminate|]. exact (IH _ H).
+Qed.
+
+Lemma U_app a b : U (a ++ b) = U a ++ U b.
+Proof. unfold unskipped. apply filter_app. Qed.
+
+Lemma drop_app_len {A} (a b : list A) : drop (len a) (a ++ b) = b.
+Proof. unfold drop, len. rewrite Nat2Z.id. rewrite skipn_app, skipn_all, Nat.sub_diag. reflexivity. Qed.
+
+Lemma nthZ_app_len (a : list Z) x b : nthZ (a ++ x :: b) (len a) = x.
+Proof. unfold nthZ, len. rewrite Nat2Z.id, app_nth2, Nat.sub_diag by lia. reflexivity. Qed.
+
+(* find_next: the next unskipped glyph, and what remains after it *)
+Lemma find_next_some ids i p : 0 <= i -> find_next mt gd ids i = Some p ->
+  i < p < len ids /\ P (nthZ ids p) = true /\ U (drop (i + 1) ids) = nthZ ids p :: U (drop (p + 1) ids).
+Proof.
+  intros Hi H. unfold find_next in H. apply find_first_from_some in H.
+  destruct H as (a & x & b & Hl & -> & Ha & Hx).
+  assert (Hlen : i + 1 + len a < len ids).
+  { assert (H1 : len (drop (i + 1) ids) = len a + 1 + len b) by (rewrite Hl, len_app, len_cons; lia).
+    unfold len, drop in *. rewrite skipn_length in H1. lia. }
+  assert (Hx' : nthZ ids (i + 1 + len a) = x).
+  { rewrite <- (nthZ_drop ids (i + 1) (len a)) by (pose proof (len_nonneg a); lia). rewrite Hl. apply nthZ_app_len. }
+  assert (Hd : drop (i + 1 + len a + 1) ids = b).
+  { replace (i + 1 + len a + 1) with ((len a + 1) + (i + 1)) by lia.
+    rewrite <- drop_drop by (pose proof (len_nonneg a); lia). rewrite Hl.
+    replace (len a + 1) with (len (a ++ [x])) by (rewrite len_app, len_cons, len_nil; lia).
+    replace (a ++ x :: b) with ((a ++ [x]) ++ b) by (rewrite <- app_assoc; reflexivity).
+    apply drop_app_len. }
+  pose proof (len_nonneg a). repeat split; try lia.
+  - rewrite Hx'. exact Hx.
+  - rewrite Hl, U_app, Ha, Hx', Hd. unfold unskipped at 1. cbn [filter app]. rewrite Hx. reflexivity.
+Qed.
+
+Lemma find_next_none ids i : find_next mt gd ids i = None -> U (drop (i + 1) ids) = [].
+Proof. unfold find_next. apply find_first_from_none. Qed.
+
+(* find_prev: the previous unskipped glyph, and what remains before it *)
+Lemma find_prev_some ids i p : 0 <= i <= len ids -> find_prev mt gd ids i = Some p ->
+  0 <= p < i /\ P (nthZ ids p) = true /\ U (rev (take i ids)) = nthZ ids p :: U (rev (take p ids)).
+Proof.
+  intros Hi H. unfold find_prev in H. apply find_first_down_some in H.
+  destruct H as (a & x & b & Hl & -> & Ha & Hx).
+  assert (Ht : take i ids = rev b ++ x :: rev a).
+  { rewrite <- (rev_involutive (take i ids)), Hl, rev_app_distr. cbn [rev]. rewrite <- app_assoc. reflexivity. }
+  assert (Hlen : len (rev b) + 1 + len a = i).
+  { assert (H1 : len (take i ids) = len (rev b) + 1 + len a).
+    { rewrite Ht, len_app, len_cons. unfold len. rewrite !rev_length. lia. }
+    rewrite len_take in H1 by lia. lia. }
+  assert (Hp : i - 1 - len a = len (rev b)) by lia.
+  assert (Htp : take (len (rev b)) ids = rev b).
+  { rewrite <- (take_take (len (rev b)) i ids) by (pose proof (len_nonneg (rev b)); pose proof (len_nonneg a); lia).
+    rewrite Ht. unfold take, len. rewrite Nat2Z.id, firstn_app, Nat.sub_diag, firstn_all. cbn [firstn]. apply app_nil_r. }
+  assert (Hx' : nthZ ids (len (rev b)) = x).
+  { rewrite <- (nthZ_take ids i) by (pose proof (len_nonneg (rev b)); pose proof (len_nonneg a); lia).
+    rewrite Ht. apply nthZ_app_len. }
+  pose proof (len_nonneg a). pose proof (len_nonneg (rev b)).
+  replace (i - 1 - len a) with (len (rev b)) by lia.
+  repeat split; try lia.
+  - rewrite Hx'. exact Hx.
+  - rewrite Hl, U_app, Ha, Hx', Htp, rev_involutive. unfold unskipped at 1. cbn [filter app]. rewrite Hx. reflexivity.
+Qed.
+
+Lemma find_prev_none ids i : find_prev mt gd ids i = None -> U (rev (take i ids)) = [].
+Proof. unfold find_prev. apply find_first_down_none. Qed.
+
+(* ------------------------------------------------------------------ matcher vs. prefix_check *)
+Lemma match_front_entries_spec ids : forall es i, 0 <= i ->
+  match match_front_entries mt gd es ids i with
+  | Some last => prefix_check es (U (drop (i + 1) ids)) = true /\ i <= last /\
+                 (es = [] -> last = i) /\ (es <> [] -> last < len ids) /\
+                 skipn (length es) (U (drop (i + 1) ids)) = U (drop (last + 1) ids)
+  | None => prefix_check es (U (drop (i + 1) ids)) = false
+  end.
+Proof.
+  induction es as [|e es IH]; intros i Hi; cbn [match_front_entries].
+  - repeat split; [lia|congruence].
+  - destruct (find_next mt gd ids i) as [p|] eqn:En.
+    + destruct (find_next_some ids i p Hi En) as (Hp & HP & HU). rewrite HU. cbn [prefix_check length skipn].
+      destruct (check_entry e (nthZ ids p)) eqn:Ec; [|reflexivity].
+      specialize (IH p ltac:(lia)). destruct (match_front_entries mt gd es ids p) as [last|].
+      * destruct IH as (H1 & H2 & H0 & H3 & H4). cbn [andb]. repeat split; try assumption; try lia.
+        -- discriminate.
+        -- intros _. destruct es as [|e' es']; [rewrite H0 by reflexivity; lia|apply H3; discriminate].
+      * cbn [andb]. exact IH.
+    + rewrite (find_next_none ids i En). reflexivity.
+Qed.
+
+Lemma match_back_entries_spec ids : forall es i, 0 <= i <= len ids ->
+  match_back_entries mt gd es ids i = prefix_check es (U (rev (take i ids))).
+Proof.
+  induction es as [|e es IH]; intros i Hi; cbn [match_back_entries]; [reflexivity|].
+  destruct (find_prev mt gd ids i) as [p|] eqn:En.
+  - destruct (find_prev_some ids i p Hi En) as (Hp & HP & HU). rewrite HU. cbn [prefix_check].
+    destruct (check_entry e (nthZ ids p)); [|reflexivity]. cbn [andb]. apply IH. lia.
+  - rewrite (find_prev_none ids i En). reflexivity.
+Qed.
+
+Lemma prefix_check_app a b l :
+  prefix_check (a ++ b) l = prefix_check a l && prefix_check b (skipn (length a) l).
+Proof.
+  revert l; induction a as [|e a IH]; intros l; [reflexivity|].
+  destruct l as [|g l]; cbn [app prefix_check length skipn]; [reflexivity|].
+  rewrite IH. rewrite andb_assoc. reflexivity.
+Qed.
+
+Lemma match_front_entries_last_some ids es i last :
+  0 <= i -> match_front_entries mt gd es ids i = Some last -> i <= last.
+Proof.
+  intros Hi H. pose proof (match_front_entries_spec ids es i Hi) as S. rewrite H in S. tauto.
+Qed.
+
+(* MatchContext::matches = the declarative statement over the unskipped glyphs *)
+Theorem mc_matches_spec : forall mc ids i, 0 <= i <= len ids ->
+  mc_matches gd mt mc ids i = context_matches_spec gd mt mc ids i.
+Proof.
+  intros mc ids i Hi. unfold mc_matches, context_matches_spec, match_back, match_front.
+  rewrite match_back_entries_spec by lia. f_equal.
+  rewrite prefix_check_app.
+  pose proof (match_front_entries_spec ids (gt_entries (mc_input mc)) i ltac:(lia)) as S1.
+  destruct (match_front_entries mt gd (gt_entries (mc_input mc)) ids i) as [front|].
+  - destruct S1 as (H1 & H2 & _ & H3 & H4). rewrite H1, H4. cbn [andb].
+    pose proof (match_front_entries_spec ids (gt_entries (mc_look mc)) front ltac:(lia)) as S2.
+    destruct (match_front_entries mt gd (gt_entries (mc_look mc)) ids front) as [l2|].
+    + destruct S2 as (H5 & _). rewrite H5. reflexivity.
+    + rewrite S2. reflexivity.
+  - rewrite S1. reflexivity.
+Qed.
+
+End Search.
